@@ -98,14 +98,15 @@ func Run(ctx *common.Ctx) {
 			if step < 2 || (lens[src] == 0 && ctx.Rng.Chance(45)) {
 				x = 0 // start with some lists
 			}
-			if lens[src] == 0 && x >= 10 && ctx.Rng.Chance(60) {
+			if lens[src] == 0 && x >= 9 && ctx.Rng.Chance(60) {
 				// prefer a source that holds a list
 				for try := 0; try < 4 && lens[src] == 0; try++ {
 					src = ctx.Rng.Intn(nvars)
 				}
 			}
+			needList := func() bool { return lens[src] == 0 }
 			switch {
-			case x < 10:
+			case x < 9:
 				n := 1 + ctx.Rng.Intn(5)
 				var xs, gx []string
 				for i := 0; i < n; i++ {
@@ -115,20 +116,42 @@ func Run(ctx *common.Ctx) {
 				}
 				lisp = fmt.Sprintf("(setq %s (list %s))", vn(dst), strings.Join(xs, " "))
 				g = fmt.Sprintf("OList [%s]%%Z %d", strings.Join(gx, ";"), dst)
-			case x < 17:
+			case x < 14:
 				e := fresh()
 				lisp, g = fmt.Sprintf("(setq %s (cons %d %s))", vn(dst), e, vn(src)), fmt.Sprintf("OCons %d %d %d", e, src, dst)
+			case x < 18:
+				// list* with 0..2 leading elements: one argument returns the argument itself
+				n := ctx.Rng.Intn(3)
+				var xs []string
+				for i := 0; i < n; i++ {
+					xs = append(xs, fmt.Sprint(fresh()))
+				}
+				lisp = fmt.Sprintf("(setq %s (list* %s))", vn(dst), strings.Join(append(append([]string{}, xs...), vn(src)), " "))
+				g = fmt.Sprintf("OListStar [%s]%%Z %d %d", strings.Join(xs, ";"), src, dst)
 			case x < 24:
-				lisp, g = fmt.Sprintf("(setq %s (cdr %s))", vn(dst), vn(src)), fmt.Sprintf("OCdr %d %d", src, dst)
-			case x < 29:
+				fname := "cdr"
+				if ctx.Rng.Chance(30) {
+					fname = "rest"
+				}
+				lisp, g = fmt.Sprintf("(setq %s (%s %s))", vn(dst), fname, vn(src)), fmt.Sprintf("OCdr %d %d", src, dst)
+			case x < 28:
 				n := ctx.Rng.Intn(lens[src] + 2)
 				lisp, g = fmt.Sprintf("(setq %s (nthcdr %d %s))", vn(dst), n, vn(src)), fmt.Sprintf("ONthcdr %d %d %d", n, src, dst)
 			case x < 32:
+				// member of an element that is (usually) present
+				e := fresh()
+				if l, ok := scope.Get(slip.Symbol(vn(src))).(slip.List); ok && len(l) > 0 && ctx.Rng.Chance(85) {
+					if fx, isFix := l[ctx.Rng.Intn(len(l))].(slip.Fixnum); isFix {
+						e = int(fx)
+					}
+				}
+				lisp, g = fmt.Sprintf("(setq %s (member %d %s))", vn(dst), e, vn(src)), fmt.Sprintf("OMember %d %d %d", e, src, dst)
+			case x < 35:
 				lisp, g = fmt.Sprintf("(setq %s (last %s))", vn(dst), vn(src)), fmt.Sprintf("OLast %d %d", src, dst)
-			case x < 36:
+			case x < 38:
 				lisp, g = fmt.Sprintf("(setq %s (butlast %s))", vn(dst), vn(src)), fmt.Sprintf("OButlast %d %d", src, dst)
-			case x < 42:
-				if lens[src] == 0 {
+			case x < 43:
+				if needList() {
 					step--
 					continue
 				}
@@ -137,38 +160,62 @@ func Run(ctx *common.Ctx) {
 				lisp, g = fmt.Sprintf("(setq %s (subseq %s %d %d))", vn(dst), vn(src), s0, e0), fmt.Sprintf("OSubseq %d %d %d %d", s0, e0, src, dst)
 			case x < 46:
 				lisp, g = fmt.Sprintf("(setq %s (copy-list %s))", vn(dst), vn(src)), fmt.Sprintf("OCopy %d %d", src, dst)
-			case x < 50:
+			case x < 49:
 				lisp, g = fmt.Sprintf("(setq %s (reverse %s))", vn(dst), vn(src)), fmt.Sprintf("OReverse %d %d", src, dst)
-			case x < 56:
+			case x < 54:
 				lisp, g = fmt.Sprintf("(setq %s (append %s %s))", vn(dst), vn(src), vn(b)), fmt.Sprintf("OAppend %d %d %d", src, b, dst)
-			case x < 68:
+			case x < 62:
 				e := fresh()
 				lisp, g = fmt.Sprintf("(setq %s (add %s %d))", vn(dst), vn(src), e), fmt.Sprintf("OAdd %d %d %d", src, e, dst)
-			case x < 73:
+			case x < 66:
 				e := fresh()
 				lisp, g = fmt.Sprintf("(push %d %s)", e, vn(src)), fmt.Sprintf("OPush %d %d", e, src)
-			case x < 77:
+			case x < 69:
 				lisp, g = fmt.Sprintf("(pop %s)", vn(src)), fmt.Sprintf("OPop %d", src)
-			case x < 84:
-				if lens[src] == 0 {
+			case x < 74:
+				if needList() {
 					step--
 					continue
 				}
 				e := fresh()
 				lisp, g = fmt.Sprintf("(setf (car %s) %d)", vn(src), e), fmt.Sprintf("OSetcar %d %d", src, e)
-			case x < 89:
-				if lens[src] == 0 {
+			case x < 78:
+				if needList() {
 					step--
 					continue
 				}
 				e, i := fresh(), ctx.Rng.Intn(lens[src])
 				lisp, g = fmt.Sprintf("(setf (nth %d %s) %d)", i, vn(src), e), fmt.Sprintf("OSetnth %d %d %d", src, i, e)
-			case x < 91:
+			case x < 81:
+				if needList() {
+					step--
+					continue
+				}
+				e, i := fresh(), ctx.Rng.Intn(lens[src])
+				lisp, g = fmt.Sprintf("(setf (elt %s %d) %d)", vn(src), i, e), fmt.Sprintf("OSetelt %d %d %d", src, i, e)
+			case x < 84:
+				if needList() {
+					step--
+					continue
+				}
+				e := fresh()
+				lisp, g = fmt.Sprintf("(setq %s (rplaca %s %d))", vn(dst), vn(src), e), fmt.Sprintf("ORplaca %d %d %d", src, e, dst)
+			case x < 86:
+				// rplacd with a non-empty list as new tail (nil would store a dotted pair: outside the modelled lists)
+				if needList() || lens[b] == 0 {
+					step--
+					continue
+				}
+				lisp, g = fmt.Sprintf("(setq %s (rplacd %s %s))", vn(dst), vn(src), vn(b)), fmt.Sprintf("ORplacd %d %d %d", src, b, dst)
+			case x < 88:
 				lisp, g = fmt.Sprintf("(setq %s (nreverse %s))", vn(dst), vn(src)), fmt.Sprintf("ONreverse %d %d", src, dst)
-			case x < 93:
+			case x < 92:
 				lisp, g = fmt.Sprintf("(setq %s (nconc %s %s))", vn(dst), vn(src), vn(b)), fmt.Sprintf("ONconc %d %d %d", src, b, dst)
 			case x < 94:
 				lisp, g = fmt.Sprintf("(setq %s (sort %s '<))", vn(dst), vn(src)), fmt.Sprintf("OSort %d %d", src, dst)
+			case x < 97:
+				k := 1 + ctx.Rng.Intn(3)
+				lisp, g = fmt.Sprintf("(setq %s (mapcar (lambda (el) (+ el %d)) %s))", vn(dst), k, vn(src)), fmt.Sprintf("OMapcar %d %d %d", k, src, dst)
 			default:
 				// remove / delete an element that is (usually) present
 				e := fresh()
@@ -218,7 +265,7 @@ func Run(ctx *common.Ctx) {
 	}
 	_ = keep
 	ctx.Meta.DistinctNontrivial = len(distinct)
-	ctx.Meta.Rule = "random histories (3..13 steps, thorough 3..14) over 4 variables of list, cons, cdr, nthcdr, last, butlast, subseq, copy-list, reverse, append, add, push, pop, (setf car), (setf nth), nreverse, nconc, sort, remove, delete; fresh integers as elements; after every step each variable's contents and (array identity, offset, capacity) read from the slip.List header; distinct = distinct op sequences"
+	ctx.Meta.Rule = "random histories (3..13 steps, thorough 3..14) over 4 variables of list, cons, list*, cdr/rest, nthcdr, member, last, butlast, subseq, copy-list, reverse, append, add, push, pop, (setf car), (setf nth), (setf elt), rplaca, rplacd, nreverse, nconc, sort, remove, delete, mapcar; fresh integers as elements; after every step each variable's contents and (array identity, offset, capacity) read from the slip.List header; distinct = distinct op sequences"
 	header := "From C06 Require Import Model Spec Corr.\n"
 	footer := "Definition res := Eval vm_compute in check_all cases.\nPrint res.\nDefinition gcount := Eval vm_compute in guard_count cases.\nPrint gcount.\n"
 	ctx.WriteShards("cases", header, "case", footer, terms, descs, 16)
